@@ -776,8 +776,8 @@ func (d *GroupExpression) Type() *Type {
 }
 
 func (d *GroupExpression) infer() {
-	if d.Type() == EMPTY_ARRAY {
-		d.Expr.(inferrer).infer()
+	if inf, ok := d.Expr.(inferrer); ok {
+		inf.infer() // also for ({}) and ([[]]); not every node is an inferrer, e.g. ([][:])
 	}
 }
 
@@ -1148,6 +1148,10 @@ func wrapAny(val Node, targetType *Type) Node {
 			return v
 		case *GroupExpression:
 			v.Expr = wrapAny(v.Expr, targetType)
+			return v
+		case *SliceExpression: // [][:] is as untyped as []
+			v.Left = wrapAny(v.Left, targetType)
+			v.T = targetType
 			return v
 		}
 		panic(fmt.Sprintf("internal error: untyped array: %s incompatible types: target %v, value %v", val.Token().Location(), targetType, valType))
